@@ -76,6 +76,12 @@ type op struct {
 	F    string `json:"f,omitempty"`    // compute factory: const toggle keep
 	C    int    `json:"c,omitempty"`    // callback name
 	Trig bool   `json:"trig,omitempty"` // triggerWithInitialZeroValue
+	// API family (api.go): subscription variant of a "sub" (plain once ctx with log | withel), its condition
+	// (all ge nz pnz; "" = none), the condition's argument / element mask, and when a ctx callback uses its context (in after)
+	V    string `json:"v,omitempty"`
+	Cond string `json:"cond,omitempty"`
+	CA   uint64 `json:"ca,omitempty"`
+	Pol  string `json:"pol,omitempty"`
 }
 
 func (o op) coqV() string {
@@ -86,6 +92,12 @@ func (o op) coqV() string {
 		return fmt.Sprintf("Write (VAddMod %s %s)", vx.N(o.A), vx.N(o.B))
 	case "vdefault":
 		return fmt.Sprintf("Write (VDefault %s)", vx.N(o.A))
+	case "vinit":
+		return fmt.Sprintf("Write (VInit %s)", vx.N(o.A))
+	case "vtoggle":
+		return fmt.Sprintf("Write (VToggle %s)", vx.N(o.A))
+	case "vreset":
+		return "Write VReset"
 	case "sub":
 		return fmt.Sprintf("Subscribe %d %s", o.C, vx.Bool(o.Trig))
 	case "unsub":
@@ -448,6 +460,11 @@ type subRec struct {
 	Trig     bool   `json:"trig"`
 	Complete bool   `json:"complete"` // unsubscribe never called
 	Log      []pair `json:"log"`
+	variantRec
+	NoLog bool `json:"-"` // the variant exposes no (prev,new) sequence: judged by judgeVariant only
+	// the variant's unsubscribe must not be called by two goroutines at once (WithElements: known finding
+	// reactive-withelements-teardown-race, the process dies with "concurrent map writes"): the generator steers away
+	NoRace bool `json:"-"`
 
 	mu           sync.Mutex
 	in           int32
@@ -503,7 +520,7 @@ type freeRun struct {
 }
 
 // launchSubs starts ns subscriber goroutines (+ unsubscribers); onUpdate registers a callback on the object.
-func launchSubs(r *vx.Rng, wg *sync.WaitGroup, ns int, onUpdate func(cb func(pair), trig bool) func()) []*subRec {
+func launchSubs(r *vx.Rng, wg *sync.WaitGroup, ns int, onUpdate func(i int, sr *subRec, rc *vx.Rng, cb func(pair), trig bool) func(), configure func(i int, sr *subRec, rr *vx.Rng)) []*subRec {
 	subs := make([]*subRec, ns)
 	for i := range subs {
 		sr := &subRec{Trig: r.Chance(1, 3), Complete: true}
@@ -513,11 +530,17 @@ func launchSubs(r *vx.Rng, wg *sync.WaitGroup, ns int, onUpdate func(cb func(pai
 			sr.Complete = false
 		}
 		rs, ru1, ru2, rc := r.Fork(), r.Fork(), r.Fork(), r.Fork()
+		if configure != nil {
+			configure(i, sr, r.Fork())
+			if sr.NoRace && mode == 4 {
+				mode = 3
+			}
+		}
 		wg.Add(1)
 		go func() {
 			defer wg.Done()
 			dally(rs, 120)
-			unsub := onUpdate(func(d pair) { sr.enter(rc, d) }, sr.Trig)
+			unsub := onUpdate(i, sr, rc, func(d pair) { sr.enter(rc, d) }, sr.Trig)
 			finish := func(rr *vx.Rng) {
 				dally(rr, 60)
 				unsub()
@@ -615,9 +638,9 @@ func freeVar(r *vx.Rng) *freeRun {
 			}
 		}()
 	}
-	fr.Subs = launchSubs(r, &wg, ns, func(cb func(pair), trig bool) func() {
+	fr.Subs = launchSubs(r, &wg, ns, func(_ int, _ *subRec, _ *vx.Rng, cb func(pair), trig bool) func() {
 		return v.OnUpdate(func(p, n uint64) { cb(pair{p, n}) }, trig)
-	})
+	}, nil)
 	if !wait(&wg, 20*time.Second) {
 		fr.Hang = true
 		return fr
@@ -626,8 +649,11 @@ func freeVar(r *vx.Rng) *freeRun {
 	return fr
 }
 
-func freeSet(r *vx.Rng) *freeRun {
+func freeSet(r *vx.Rng, api bool) *freeRun {
 	fr := &freeRun{Kind: "set", S0: r.U64() & (1<<universe - 1) & r.U64()}
+	if api {
+		fr.Kind = "set-api"
+	}
 	s := reactive.NewSet[int](elemsOf(fr.S0)...)
 	// the permanent first subscriber: its log (after the initial state) is the global change order
 	perm := &subRec{Trig: true, Complete: true}
@@ -662,9 +688,27 @@ func freeSet(r *vx.Rng) *freeRun {
 			}
 		}()
 	}
-	subs := launchSubs(r, &wg, ns, func(cb func(pair), trig bool) func() {
+	var configure func(i int, sr *subRec, rr *vx.Rng)
+	if api {
+		configure = func(_ int, sr *subRec, rr *vx.Rng) {
+			if rr.Chance(2, 3) {
+				sr.Variant, sr.Trig, sr.CA, sr.NoRace = "withel", false, 1<<universe-1, true
+				if rr.Bool() {
+					sr.CA = rr.U64() & (1<<universe - 1)
+				}
+			}
+		}
+	}
+	subs := launchSubs(r, &wg, ns, func(_ int, sr *subRec, _ *vx.Rng, cb func(pair), trig bool) func() {
+		if sr.Variant == "withel" {
+			return withElements(s, sr.CA, func(d pair) {
+				sr.mu.Lock()
+				sr.Events = append(sr.Events, d)
+				sr.mu.Unlock()
+			})
+		}
 		return s.OnUpdate(func(m ds.SetMutations[int]) { cb(mutPair(m)) }, trig)
-	})
+	}, configure)
 	if !wait(&wg, 20*time.Second) {
 		fr.Hang = true
 		return fr
@@ -740,7 +784,12 @@ func judgeFree(m sem, fr *freeRun) (fails []string, midstream int) {
 	if cur != fr.Final {
 		fails = append(fails, fmt.Sprintf("folding the global change sequence gives %d, final value is %d", cur, fr.Final))
 	}
+	fixupVariants(fr)
 	for i, s := range fr.Subs {
+		fails = append(fails, judgeVariant(i, s, fr.Final)...)
+		if s.NoLog {
+			continue
+		}
 		found := -1
 		for k := 0; k <= len(fr.G); k++ {
 			if shapeAt(m, fr.S0, fr.G, s.Trig, s.Complete, s.Log, k) {
@@ -772,7 +821,7 @@ func judgeFree(m sem, fr *freeRun) (fails []string, midstream int) {
 			fails = append(fails, fmt.Sprintf("subscriber %d: a callback was still running when its unsubscribe returned", i))
 		}
 	}
-	if fr.Kind == "set" {
+	if fr.Kind == "set" || fr.Kind == "set-api" {
 		// the writers' return values are the same multiset as the notified changes
 		a := append([]pair{}, fr.G...)
 		b := append([]pair{}, fr.Returns...)
@@ -812,8 +861,9 @@ func judgeFree(m sem, fr *freeRun) (fails []string, midstream int) {
 }
 
 func emitFree(cf *vx.CasesFile, st *vx.Stats, fr *freeRun, seed uint64, idx int) {
+	isSet := fr.Kind == "set" || fr.Kind == "set-api"
 	m := varSem
-	if fr.Kind == "set" {
+	if isSet {
 		m = setSem
 	}
 	fails, mid := judgeFree(m, fr)
@@ -841,10 +891,19 @@ func emitFree(cf *vx.CasesFile, st *vx.Stats, fr *freeRun, seed uint64, idx int)
 	if fr.Hang {
 		return
 	}
-	subs := vx.ListOf(fr.Subs, func(s *subRec) string {
+	var logged []*subRec
+	for _, s := range fr.Subs {
+		if !s.NoLog {
+			logged = append(logged, s)
+		}
+		if s.Variant != "" {
+			st.Count("free:variant=" + s.Variant)
+		}
+	}
+	subs := vx.ListOf(logged, func(s *subRec) string {
 		return fmt.Sprintf("(%s, %s, %s)", vx.Bool(s.Trig), vx.Bool(s.Complete), coqPairs(s.Log))
 	})
-	if fr.Kind == "set" {
+	if isSet {
 		cf.Add(fmt.Sprintf("SFree %s %s %s %s", vx.N(fr.S0), coqPairs(fr.G), vx.N(fr.Final), subs))
 	} else {
 		cf.Add(fmt.Sprintf("VFree %s %s %s", coqPairs(fr.G), vx.N(fr.Final), subs))
@@ -857,6 +916,10 @@ func emitFree(cf *vx.CasesFile, st *vx.Stats, fr *freeRun, seed uint64, idx int)
 // ---------------------------------------------------------------------------------------------------------------
 
 func main() {
+	if len(os.Args) >= 2 && os.Args[1] == "welrace" {
+		welRaceChild()
+		return
+	}
 	if len(os.Args) < 2 || os.Args[1] != "all" {
 		vx.Die("usage: hx-c13 all --nseq N --nfree M --seed S --out cases.v --stats stats.json")
 	}
@@ -864,6 +927,8 @@ func main() {
 	nseq := fs.Int("nseq", 300, "sequential scripts")
 	nfree := fs.Int("nfree", 300, "free-running runs")
 	nstorm := fs.Int("nstorm", 6, "storm runs (tight writers vs subscribe/unsubscribe loops)")
+	napi := fs.Int("napi", 200, "sequential scripts over the whole exported API (Init, ToggleValue, InheritFrom, OnUpdateOnce, OnUpdateWithContext, WithValue, LogUpdates, WithElements)")
+	nfreeapi := fs.Int("nfreeapi", 150, "free-running runs over the whole exported API")
 	maxLen := fs.Int("len", 24, "")
 	seed := fs.Uint64("seed", 1, "")
 	out := fs.String("out", "cases.v", "")
@@ -895,19 +960,50 @@ func main() {
 			emitSetSeq(cf, st, rr.U64()&(1<<universe-1)&rr.U64(), ops, ncb, "random")
 		}
 	}
+	hung := false
 	for i := 0; i < *nfree; i++ {
 		var fr *freeRun
 		if i%2 == 0 {
 			fr = freeVar(r.Fork())
 		} else {
-			fr = freeSet(r.Fork())
+			fr = freeSet(r.Fork(), false)
 		}
 		emitFree(cf, st, fr, *seed, i)
 		if fr.Hang {
+			hung = true
 			break // goroutines of the hung run are still alive: stop here, the failure is recorded
 		}
 	}
-	storms(r.Fork(), st, *nstorm)
+	// the API family (api.go) comes after the round-1 families so that their case indices and random streams are unchanged
+	rst := r.Fork() // storm stream: drawn first, as in round 1
+	ra := r.Fork()
+	if *napi > 0 {
+		directedApi(cf, st)
+	}
+	for i, n0 := 0, cf.Len(); cf.Len() < n0+*napi; i++ {
+		rr := ra.Fork()
+		n := 4 + rr.Intn(*maxLen)
+		if i%4 == 3 {
+			ops, ncb := genApiSetScript(rr, n)
+			emitSetApi(cf, st, rr.U64()&(1<<universe-1)&rr.U64(), ops, ncb, "random")
+		} else {
+			ops, ncb := genApiVarScript(rr, n)
+			emitVarApi(cf, st, vx.Pick(rr, []string{"var", "var", "max"}), ops, ncb, "random")
+		}
+	}
+	for i := 0; i < *nfreeapi && !hung; i++ {
+		var fr *freeRun
+		if i%3 == 2 {
+			fr = freeSet(ra.Fork(), true)
+		} else {
+			fr = freeVarApi(ra.Fork())
+		}
+		emitFree(cf, st, fr, *seed, *nfree+i)
+		if fr.Hang {
+			break
+		}
+	}
+	storms(rst, st, *nstorm)
 	keys := make([]string, 0)
 	for k := range st.Hist {
 		keys = append(keys, k)
